@@ -133,3 +133,100 @@ theorem soCayley_real_det' (inv : NMat ℂ → NMat ℂ)
   have := hinv _ (by rw [toM_one_add]; exact isUnit_one_add_of_skew _ hsk)
   rw [toM_one_add] at this
   rw [cayley_det_one _ _ (soGenerator_real_transpose S hS hd θ) this, one_pow]
+
+/-! ### Stiefel maps -/
+open scoped ComplexOrder
+
+variable {rank : Nat}
+
+theorem cholLMat_top (isReal : Bool) (θ : Nat → ℝ) (h : rank ≤ dim) (r c : Fin rank) :
+    toM dim rank (cholLMat (K := ℂ) dim rank isReal θ) ⟨r.val, lt_of_lt_of_le r.isLt h⟩ c
+      = if r = c then 1 else if c < r then toM dim rank (cholLMat (K := ℂ) dim rank isReal θ) ⟨r.val, lt_of_lt_of_le r.isLt h⟩ c else 0 := by
+  by_cases h1 : r = c
+  · subst h1
+    simp [toM, cholLMat, NMat.get_ofFn _ _ _ (lt_of_lt_of_le r.isLt h) r.isLt, r.isLt]
+  · rw [if_neg h1]
+    by_cases h2 : c < r
+    · rw [if_pos h2]
+    · rw [if_neg h2]
+      have h1' : r.val ≠ c.val := fun e => h1 (Fin.ext e)
+      have h2' : ¬ c.val < r.val := h2
+      simp [toM, cholLMat, NMat.get_ofFn _ _ _ (lt_of_lt_of_le r.isLt h) c.isLt, r.isLt, h1', h2']
+
+/-- the matrix `matL` of `to_stiefel_choleskyL` has full column rank for **every** θ (unit lower-triangular top block) -/
+theorem cholLMat_injective (isReal : Bool) (θ : Nat → ℝ) (h : rank ≤ dim) :
+    Function.Injective (toM dim rank (cholLMat (K := ℂ) dim rank isReal θ)).mulVec := by
+  set L := toM dim rank (cholLMat (K := ℂ) dim rank isReal θ) with hL
+  have key : ∀ x : Fin rank → ℂ, L *ᵥ x = 0 → x = 0 := by
+    intro x hx
+    have hall : ∀ k : Nat, ∀ r : Fin rank, r.val = k → x r = 0 := by
+      intro k
+      induction k using Nat.strong_induction_on with
+      | _ k ih =>
+        intro r hr
+        have hrow := congrFun hx ⟨r.val, lt_of_lt_of_le r.isLt h⟩
+        simp only [mulVec, dotProduct, Pi.zero_apply] at hrow
+        rw [Finset.sum_eq_single r] at hrow
+        · rw [hL, cholLMat_top isReal θ h r r, if_pos rfl, one_mul] at hrow; exact hrow
+        · intro c _ hc
+          rw [hL, cholLMat_top isReal θ h r c, if_neg (Ne.symm hc)]
+          by_cases h2 : c < r
+          · rw [ih c.val (by rw [← hr]; exact h2) c rfl, mul_zero]
+          · rw [if_neg h2, zero_mul]
+        · intro hne; exact absurd (Finset.mem_univ _) hne
+    funext r; exact hall r.val r rfl
+  intro x y hxy
+  have := key (x - y) (by rw [mulVec_sub, hxy, sub_self])
+  exact sub_eq_zero.1 this
+
+/-- `to_stiefel_choleskyL`: `XᴴX = 1` for **every** θ, given the contracts of `cholesky` (on positive definite input) and `inv`
+(left inverse of invertible input). -/
+theorem stiefelCholL_orthonormal' (chol inv : NMat ℂ → NMat ℂ)
+    (hchol : ∀ G, (toM rank rank G).PosDef → toM rank rank (chol G) * (toM rank rank (chol G))ᴴ = toM rank rank G)
+    (hinv : ∀ P, IsUnit (toM rank rank P).det → toM rank rank (inv P) * toM rank rank P = 1)
+    (isReal : Bool) (θ : Nat → ℝ) (h : rank ≤ dim) :
+    (toM dim rank (stiefelCholL chol inv dim rank isReal θ))ᴴ * toM dim rank (stiefelCholL chol inv dim rank isReal θ) = 1 := by
+  unfold stiefelCholL
+  simp only []
+  set L := cholLMat (K := ℂ) dim rank isReal θ with hL
+  set G := matMul rank dim rank (conjT dim rank L) L with hG
+  have hGm : toM rank rank G = (toM dim rank L)ᴴ * toM dim rank L := by rw [hG, toM_matMul, toM_conjT]
+  have hpd : (toM rank rank G).PosDef := by
+    rw [hGm]; exact Matrix.PosDef.conjTranspose_mul_self _ (cholLMat_injective isReal θ h)
+  have hC := hchol G hpd
+  have hdet : IsUnit (toM rank rank (conjT rank rank (chol G))).det := by
+    rw [toM_conjT, det_conjTranspose]
+    have hu : IsUnit (toM rank rank G).det := (Matrix.isUnit_iff_isUnit_det _).1 (Matrix.PosDef.isUnit hpd)
+    rw [← hC, det_mul, det_conjTranspose] at hu
+    exact (isUnit_of_mul_isUnit_left hu).star
+  have hR := hinv _ hdet
+  rw [toM_conjT] at hR
+  rw [toM_matMul]
+  exact stiefel_cholL_contract _ _ _ (by rw [hC, hGm]) hR
+
+/-- `to_stiefel_polar`, `rank ≥ 2` branch: `XᴴX = 1` whenever the parameter matrix has full column rank, given the contract of
+the inverse square root (`S = Sᴴ`, `S G S = 1` on positive definite `G`). -/
+theorem stiefelPolar_orthonormal' (invSqrt : NMat ℂ → NMat ℂ)
+    (hsq : ∀ G, (toM rank rank G).PosDef →
+      (toM rank rank (invSqrt G))ᴴ = toM rank rank (invSqrt G) ∧
+      toM rank rank (invSqrt G) * toM rank rank G * toM rank rank (invSqrt G) = 1)
+    (isReal : Bool) (θ : Nat → ℝ) (hr : rank ≠ 1)
+    (hfull : Function.Injective (toM dim rank (stiefelMat (K := ℂ) dim rank isReal θ)).mulVec) :
+    (toM dim rank (stiefelPolar invSqrt dim rank isReal θ))ᴴ * toM dim rank (stiefelPolar invSqrt dim rank isReal θ) = 1 := by
+  unfold stiefelPolar
+  simp only [if_neg hr]
+  set M := stiefelMat (K := ℂ) dim rank isReal θ with hM
+  set G := matMul rank dim rank (conjT dim rank M) M with hG
+  have hGm : toM rank rank G = (toM dim rank M)ᴴ * toM dim rank M := by rw [hG, toM_matMul, toM_conjT]
+  have hpd : (toM rank rank G).PosDef := by rw [hGm]; exact Matrix.PosDef.conjTranspose_mul_self _ hfull
+  obtain ⟨h1, h2⟩ := hsq G hpd
+  rw [toM_matMul]
+  exact stiefel_polar_contract _ _ h1 (by rw [← hGm]; exact h2)
+
+/-- `to_stiefel_qr`: the property is the contract of the `qr` routine (nothing but the reshape is numqi's) -/
+theorem stiefelQR_orthonormal' (qrQ : NMat ℂ → NMat ℂ)
+    (hqr : ∀ M, Function.Injective (toM dim rank M).mulVec → (toM dim rank (qrQ M))ᴴ * toM dim rank (qrQ M) = 1)
+    (isReal : Bool) (θ : Nat → ℝ)
+    (hfull : Function.Injective (toM dim rank (stiefelMat (K := ℂ) dim rank isReal θ)).mulVec) :
+    (toM dim rank (stiefelQR qrQ dim rank isReal θ))ᴴ * toM dim rank (stiefelQR qrQ dim rank isReal θ) = 1 :=
+  hqr _ hfull
